@@ -445,3 +445,8 @@ O("C11.cmd_http", "C11", "h_C11c.c", "h_C11_cmd_http",
   replace_status={"chkpntedp": "assumed false (no pending checkpoint)", "echs_http_send_sched": "recording contract (text not covered)"},
   kind="bounded", bound="queue of 4 slots; requests without a tuid= filter", unwind=20,
   solver=["minisat", "kissat"], timeout={"quick": 600, "thorough": 1800}, replay=False, replay_note="callees replaced by contracts, fault-injecting stubs")
+O("C05.send_evrrul", "C05", "h_C16.c", "h_C05_send_evrrul",
+  "send_evrrul for a task with two rules at every consumption state (cache read positions, fills, seeds symbolic): DTSTART written = earliest occurrence not yet consumed over both rules, COUNT increment written = cached occurrences of this rule not yet consumed",
+  ["send_evrrul"], dfcc=True, replace=["send_ev", "send_rrul"],
+  replace_status={"send_ev": "recording contract", "send_rrul": "recording contract (its lists: C05.send_rrul.sets)"},
+  kind="bounded", bound="two sibling rules", unwind=20, solver=["minisat", "kissat"], timeout={"quick": 600, "thorough": 1800}, replay=False, replay_note="callees replaced by contracts")
